@@ -126,7 +126,9 @@ def main():
     props = sorted(f[:-3].upper() for f in os.listdir(os.path.join(VERIF, "sa", "rules")) if len(f) == 6 and f.startswith("c") and f[1:3].isdigit())
     base = {}
     for p in props:
-        r = subprocess.run([sys.executable, "-m", "sa.check", p, "--out", tempfile.mkdtemp(prefix="benign_o_")], cwd=VERIF, capture_output=True, text=True)
+        o = tempfile.mkdtemp(prefix="benign_o_")
+        r = subprocess.run([sys.executable, "-m", "sa.check", p, "--out", o], cwd=VERIF, capture_output=True, text=True)
+        shutil.rmtree(o, ignore_errors=True)
         base[p] = (r.returncode, sorted(l.split(" at ")[0] for l in r.stdout.splitlines() if l.startswith("KNOWN-FINDING")))
     bad = 0
     for name in names:
